@@ -1503,7 +1503,12 @@ def emit_stack(i, stack, extra=""):
               f"  {reset}auto r2 = v.at({args});\n{tail2}  return out(r1, {M}) + \" | \" + out(r2, {M}){ext};\n")
     return (f"namespace s{i} {{\n{log}" + "\n".join(lines) + f"\nusing B = {B};\nstatic std::unique_ptr<field<B>> F;\n"
             f"std::string setup(const In & in) {{\n  F = std::make_unique<field<B>>(make_parameter_pack({', '.join(parts)}));\n  return \"ok\";\n}}\n"
-            f"std::string at(const In & in) {{\n  if (!F) return \"nosetup\";\n  typename field<B>::view_t v(*F);\n{at}}}\n{extra}}}\n")
+            f"std::string at(const In & in) {{\n  if (!F) return \"nosetup\";\n  typename field<B>::view_t v(*F);\n"
+            # a view is a self-contained snapshot (it is what gets copied to a device): the owning field object is relocated
+            # after the view was taken -- its storage travels with it -- and the old object is freed, so that a view that
+            # borrows anything from the field object itself is reported by ASan / shows as a wrong value
+            f"  struct Reloc {{ std::unique_ptr<field<B>> g; Reloc() : g(std::make_unique<field<B>>(std::move(*F))) {{ F.reset(); }}"
+            f" ~Reloc() {{ F = std::move(g); }} }} reloc;\n{at}}}\n{extra}}}\n")
 
 
 def parse_out(o, M, bare):
